@@ -85,7 +85,11 @@ func generate(b *xmlBatch, dir string, tops []string) (map[string]*genOutcome, e
 	for _, top := range tops {
 		o := &genOutcome{Top: top, PkgName: pkgNameOf(top)}
 		out[top] = o
-		txt, err := runCmd(runDir, 2*time.Minute, imp, base+top)
+		args := []string{base + top}
+		if b.Link {
+			args = []string{"--link", base + top}
+		}
+		txt, err := runCmd(runDir, 2*time.Minute, imp, args...)
 		if err != nil {
 			o.GenErr = strings.TrimSpace(txt) + " (" + err.Error() + ")"
 			continue
